@@ -192,10 +192,10 @@ def add_placeholders(rng, v, names=('D', 'N'), p=0.3):
     return v
 
 
-def gen_key_spec(rng, modname=None, alphabet=None, keys=None, kinds=None, mode='param'):
+def gen_key_spec(rng, modname=None, alphabet=None, keys=None, kinds=None, mode='param', bases=0.25):
     """one pipeline file mounted (or not) under a namespace by a main config; optional placeholders"""
     modname = modname or fresh_modname()
-    classes, pfile = gen_pipeline(rng, alphabet=alphabet, keys=keys, kinds=kinds, modname=modname, bases=0.25)
+    classes, pfile = gen_pipeline(rng, alphabet=alphabet, keys=keys, kinds=kinds, modname=modname, bases=bases)
     ns = rng.choice([None, None, 'n', 'n::m', 'train', 'a::b::c'])
     gv = None
     if rng.random() < 0.3:
